@@ -184,38 +184,37 @@ def seedFound {α} (keyEq : α → α → Bool) : ToArgs α → List Nat → R (
     let (t', _, _) ← t.foundIndex keyEq i
     seedFound keyEq t' is
 
+/-- `Function` / `None` from the function flags that are left: `(type, remaining flags)` -/
+def headerType (flags : List Nat) (args : Args) (constants : List Const) : R (Option Function × List Nat) :=
+  let nfn := (if flags.contains bNEWLOCALS then 1 else 0) + (if flags.contains bOPTIMIZED then 1 else 0)
+  if nfn == 0 then
+    (if args.len != 0 then throw .raised else pure ((none : Option Function), flags))
+  else if nfn == 2 then
+    let doc := match constants with
+      | .inner (.str s) :: _ => some s
+      | _ => none
+    let tps := [bASYNC_GENERATOR, bCOROUTINE, bGENERATOR].filter flags.contains
+    if tps.length > 1 then throw .raised else
+    let ft : Option FnType := match tps with
+      | [b] => if b == bGENERATOR then some .generator else if b == bCOROUTINE then some .coroutine else some .asyncGenerator
+      | _ => none
+    pure (some ⟨args, doc, ft⟩, flags.filter (fun b => !tps.contains b && b != bNEWLOCALS && b != bOPTIMIZED))
+  else throw .raised
+
 /-- the header part of `to_code_data`: flags consumed one by one into `type`, future-annotations, CO_NESTED; the
     parameters cut out of `co_varnames`.  Returns `(type, annotations, nested, args)`. -/
 def decodeHeader (v : Ver) (F : FlagTable) (argc pos kw fl : Nat) (varnames freevars cellvars : List PStr) (constants : List Const) :
     R (Option Function × Bool × Bool × Args) := do
-  let posonly := if v.hasPosOnly then pos else 0
   let flags ← toFlags F fl
-  let args ← argsFromInput ⟨argc, posonly, kw, varnames, flags.contains bVARARGS, flags.contains bVARKEYWORDS⟩
-  let flags := flags.filter (fun b => b != bVARARGS && b != bVARKEYWORDS)
-  if flags.contains bNOFREE != (freevars.isEmpty && cellvars.isEmpty) then throw .raised
-  let flags := flags.filter (· != bNOFREE)
-  let ann := flags.contains F.annotations
-  let flags := flags.filter (· != F.annotations)
-  let nested := flags.contains bNESTED
-  let flags := flags.filter (· != bNESTED)
-  let nfn := (if flags.contains bNEWLOCALS then 1 else 0) + (if flags.contains bOPTIMIZED then 1 else 0)
-  let (tp, flags) ←
-    if nfn == 0 then
-      if args.len != 0 then throw .raised else pure ((none : Option Function), flags)
-    else if nfn == 2 then
-      let doc := match constants with
-        | .inner (.str s) :: _ => some s
-        | _ => none
-      let tps := [bASYNC_GENERATOR, bCOROUTINE, bGENERATOR].filter flags.contains
-      if tps.length > 1 then throw .raised
-      let ft : Option FnType := match tps with
-        | [b] => if b == bGENERATOR then some .generator else if b == bCOROUTINE then some .coroutine else some .asyncGenerator
-        | _ => none
-      let flags := flags.filter (fun b => !tps.contains b && b != bNEWLOCALS && b != bOPTIMIZED)
-      pure (some ⟨args, doc, ft⟩, flags)
-    else throw .raised
-  if !flags.isEmpty then throw .raised
-  pure (tp, ann, nested, args)
+  let args ← argsFromInput ⟨argc, if v.hasPosOnly then pos else 0, kw, varnames, flags.contains bVARARGS, flags.contains bVARKEYWORDS⟩
+  let f1 := flags.filter (fun b => b != bVARARGS && b != bVARKEYWORDS)
+  if f1.contains bNOFREE != (freevars.isEmpty && cellvars.isEmpty) then throw .raised else
+  let f2 := f1.filter (· != bNOFREE)
+  let f3 := f2.filter (· != F.annotations)
+  let f4 := f3.filter (· != bNESTED)
+  let r ← headerType f4 args constants
+  if !r.2.isEmpty then throw .raised else
+  pure (r.1, f2.contains F.annotations, f3.contains bNESTED, args)
 
 /-- `bytes_to_blocks` up to the blocks: parameters and docstring count as found first, then `_parse_bytes`, `to_arg`
     instruction by instruction (popping the line mapping), then the grouping into blocks -/
